@@ -122,6 +122,11 @@ func MainIsolated(id, level string, watchdog time.Duration, body func(r *Run)) {
 		os.Exit(2)
 	}
 	extraViol := 0
+	if code >= 10 && code <= 12 {
+		code -= 10
+	} else {
+		code = 99 // anything else (incl. the Go runtime's exit status 2) is an abnormal death
+	}
 	if code != 0 && code != 1 && code != 2 {
 		// abnormal death
 		fam, idx := "", 0
